@@ -247,3 +247,72 @@ Proof.
   unfold pop_last. destruct (rev l) as [|y t] eqn:Er; [discriminate|].
   intros H; inversion H; subst. rewrite <- (rev_involutive l), Er. reflexivity.
 Qed.
+
+(* ---------------------------------------------------------------- uniqueness of sorted index lists *)
+Lemma strictly_sorted_unique l1 l2 : strictly_sorted l1 -> strictly_sorted l2 ->
+  (forall y, In y l1 <-> In y l2) -> l1 = l2.
+Proof.
+  revert l2. induction l1 as [|x l1 IH]; intros [|y l2] H1 H2 Hm.
+  - reflexivity.
+  - exfalso. apply (proj2 (Hm y)). left; reflexivity.
+  - exfalso. apply (proj1 (Hm x)). left; reflexivity.
+  - inversion H1 as [|? ? Hs1 Ha1]; inversion H2 as [|? ? Hs2 Ha2]; subst.
+    rewrite Forall_forall in Ha1, Ha2.
+    assert (x = y).
+    { destruct (proj1 (Hm x) (or_introl eq_refl)) as [->|Hx]; [reflexivity|].
+      destruct (proj2 (Hm y) (or_introl eq_refl)) as [->|Hy]; [reflexivity|].
+      specialize (Ha2 x Hx). specialize (Ha1 y Hy). lia. }
+    subst y. f_equal. apply IH; try assumption.
+    intros z. split; intros Hz.
+    + destruct (proj1 (Hm z) (or_intror Hz)) as [->|?]; [|assumption]. specialize (Ha1 _ Hz). lia.
+    + destruct (proj2 (Hm z) (or_intror Hz)) as [->|?]; [|assumption]. specialize (Ha2 _ Hz). lia.
+Qed.
+
+Lemma sort_dedup_unique X T : strictly_sorted T -> (forall y, In y T <-> In y X) -> sort_dedup X = T.
+Proof.
+  intros HT Hm. apply strictly_sorted_unique; [apply sort_dedup_sorted|assumption|].
+  intros y. rewrite sort_dedup_In. symmetry. apply Hm.
+Qed.
+
+Lemma strictly_sorted_app a b : strictly_sorted a -> strictly_sorted b ->
+  (forall x y, In x a -> In y b -> x < y) -> strictly_sorted (a ++ b).
+Proof.
+  unfold strictly_sorted. induction a as [|x a IH]; cbn; intros Ha Hb Hlt; [assumption|].
+  inversion Ha as [|? ? Hs Hall]; subst. constructor.
+  - apply IH; [assumption|assumption|]. intros; apply Hlt; [right|]; assumption.
+  - apply Forall_app. split; [assumption|]. apply Forall_forall. intros y Hy. apply Hlt; [left; reflexivity|assumption].
+Qed.
+
+Lemma strictly_sorted_map (f : N -> N) l : (forall x y, x < y -> f x < f y) ->
+  strictly_sorted l -> strictly_sorted (map f l).
+Proof.
+  unfold strictly_sorted. intros Hf. induction 1 as [|x l Hs IH Hall]; cbn; constructor; [assumption|].
+  rewrite Forall_forall in *. intros y Hy. apply in_map_iff in Hy as [z [<- Hz]]. apply Hf, Hall, Hz.
+Qed.
+
+(* the blind interface's index translation j |-> j + L + 1 *)
+Definition shiftN (L : nat) (j : N) : N := j + N.of_nat L + 1.
+
+Lemma sort_dedup_blind_indexes L a b : (forall x, In x a -> x < N.of_nat L) ->
+  sort_dedup (a ++ map (shiftN L) b) = sort_dedup a ++ map (shiftN L) (sort_dedup b).
+Proof.
+  intros Ha. apply sort_dedup_unique.
+  - apply strictly_sorted_app; [apply sort_dedup_sorted| |].
+    + apply strictly_sorted_map; [unfold shiftN; intros; lia|apply sort_dedup_sorted].
+    + intros x y Hx Hy. apply (proj1 (sort_dedup_In _ _)) in Hx. apply in_map_iff in Hy as [z [<- _]].
+      specialize (Ha x Hx). unfold shiftN. lia.
+  - intros y. rewrite !in_app_iff, sort_dedup_In, !in_map_iff.
+    split; (intros [H|[z [Hz Hin]]]; [left; assumption|right; exists z; split; [assumption|]]).
+    + apply (proj1 (sort_dedup_In _ _)) in Hin; assumption.
+    + apply (proj2 (sort_dedup_In _ _)); assumption.
+Qed.
+
+Lemma mapM_uadd_shift L l : (forall j, In j l -> j + N.of_nat L + 1 <= usize_max) ->
+  mapM (fun j => let* a := uadd j (N.of_nat L) in uadd a 1) l = Ok (map (shiftN L) l).
+Proof.
+  induction l as [|j l IH]; intros H; cbn [mapM map]; [reflexivity|].
+  assert (Hj := H j (or_introl eq_refl)).
+  unfold uadd at 1. destruct (N.leb_spec (j + N.of_nat L) usize_max); [|lia]. cbn [bind].
+  unfold uadd at 1. destruct (N.leb_spec (j + N.of_nat L + 1) usize_max); [|lia]. cbn [bind].
+  rewrite IH by (intros; apply H; right; assumption). reflexivity.
+Qed.
